@@ -99,6 +99,7 @@ package j5reflect
 // A field's name in its parent is a pure function of the field (property JSON name, map key or index).
 //@ spec func fieldName(f FieldContext) string
 //@ func (FieldContext).NameInParent
+//@   opt assumed fieldName is defined as what NameInParent returns; purity of the implementations is assumed
 //@   pure reads
 //@   ensures result == fieldName(recv)
 
@@ -131,3 +132,78 @@ package j5reflect
 //@   requires scalarsOK(schema)
 //@ func (*propSet).buildValue
 //@   requires scalarsOK(prop.schema)
+
+// ---- non-nil results (C06: nil safety of the decoder) ---------------------------------------------
+// What the codec relies on when it calls a method on a value it was handed: a call that reports
+// success hands back a usable value. Implementations under contract are checked against these.
+//@ func (*Reflector).NewRoot
+//@   ensures nonnil: result1 == nil ==> result0 != nil
+//@ func (Property).CreateField
+//@   ensures nonnil: result1 == nil ==> result0 != nil
+//@ func (Property).Field
+//@   ensures nonnil: result1 == nil ==> result0 != nil
+//@ func (PropertySet).GetProperty
+//@   ensures nonnil: result1 == nil ==> result0 != nil
+//@ func (PropertySet).NewValue
+//@   ensures nonnil: result1 == nil ==> result0 != nil
+//@ func (Oneof).GetOne
+//@   ensures nonnil: result2 == nil && result1 ==> result0 != nil
+//@ func (MapOfObjectField).NewObjectElement
+//@   ensures nonnil: result1 == nil ==> result0 != nil
+//@ func (MapOfOneofField).NewOneofElement
+//@   ensures nonnil: result1 == nil ==> result0 != nil
+//@ func (ArrayOfObjectField).NewObjectElement
+//@   ensures nonnil: result0 != nil
+//@ func (ArrayOfOneofField).NewOneofElement
+//@   ensures nonnil: result2 == nil ==> result0 != nil
+//@ func (Field).AsScalar
+//@   ensures nonnil: result1 ==> result0 != nil
+//@ func (Field).AsEnum
+//@   ensures nonnil: result1 ==> result0 != nil
+//@ func (Field).AsAny
+//@   ensures nonnil: result1 ==> result0 != nil
+//@ func (Field).AsContainer
+//@   ensures nonnil: result1 ==> result0 != nil
+//@ func (Field).AsObject
+//@   ensures nonnil: result1 ==> result0 != nil
+//@ func (Field).AsOneof
+//@   ensures nonnil: result1 ==> result0 != nil
+//@ func (Field).AsArray
+//@   ensures nonnil: result1 ==> result0 != nil
+//@ func (Field).AsArrayOfScalar
+//@   ensures nonnil: result1 ==> result0 != nil
+//@ func (Field).AsArrayOfContainer
+//@   ensures nonnil: result1 ==> result0 != nil
+//@ func (Field).AsArrayOfOneof
+//@   ensures nonnil: result1 ==> result0 != nil
+//@ func (Field).AsArrayOfObject
+//@   ensures nonnil: result1 ==> result0 != nil
+//@ func (Field).AsMap
+//@   ensures nonnil: result1 ==> result0 != nil
+//@ func (Field).AsMapOfScalar
+//@   ensures nonnil: result1 ==> result0 != nil
+//@ func (Field).AsMapOfContainer
+//@   ensures nonnil: result1 ==> result0 != nil
+//@ func (Field).AsMapOfObject
+//@   ensures nonnil: result1 ==> result0 != nil
+//@ func (Field).AsMapOfOneof
+//@   ensures nonnil: result1 ==> result0 != nil
+
+// building a value reports either an error or a usable field
+//@ func (messageFieldFactory).buildField
+//@   ensures nonnil: result != nil
+//@ func (fieldFactory).buildField
+//@   ensures nonnil: result != nil
+//@ func newMessageMapField
+//@   ensures nonnil: result1 == nil ==> result0 != nil
+//@ func newMessageArrayField
+//@   ensures nonnil: result1 == nil ==> result0 != nil
+//@ func newLeafArrayField
+//@   ensures nonnil: result1 == nil ==> result0 != nil
+//@ func newLeafMapField
+//@   ensures nonnil: result1 == nil ==> result0 != nil
+//@ func buildProperty
+//@   ensures nonnil: result1 == nil ==> result0 != nil
+//@ func (*propSet).buildValue
+//@   ensures nonnil: result2 == nil && (result1 || create) ==> result0 != nil
+
